@@ -248,6 +248,17 @@ func (str *AgileTreeReader) CanUseAgileTree(grpReq *structs.GroupByRequest) (boo
 
 	// walk through measure colname
 	for _, m := range grpReq.MeasureOperations {
+		// The tree keeps only min, max, sum and count per measure column (avg and range are
+		// derived from these). Any other function (values, list, cardinality, perc, earliest,
+		// latest, ...) has to be computed from the records.
+		switch m.MeasureFunc {
+		case sutils.Count, sutils.Sum, sutils.Min, sutils.Max, sutils.Avg, sutils.Range:
+		default:
+			return false, nil
+		}
+		if m.ValueColRequest != nil {
+			return false, nil
+		}
 		if m.MeasureCol == "*" && m.MeasureFunc == sutils.Count {
 			continue // we treat count(*) as just as a bucket count
 		}
